@@ -315,6 +315,26 @@ def rule_parcheck(ctx, prop: str) -> RuleResult:
     res.ob(applies)
     if not applies:
         res.add(Finding("PARCHECK", m.rel, run.lineno, run.qualname, "apply_proc", "ParallelAnalysis.run never traverses the procedure"))
+    # (c2) the footprint of a call is that of the callee that is compiled: the body handed to the
+    #      effect extraction must not be swapped for an "equivalent" procedure (equivalent procedures
+    #      compute the same values but may touch more memory, e.g. after stage_mem)
+    ne_ = ix.module("src/exo/rewrite/new_eff.py")
+    gsp = ne_.funcs.get("get_simple_proc")
+    if gsp is None:
+        raise AnalysisError("anchor vanished: new_eff.get_simple_proc")
+    res.instances += 1
+    res.nontrivial += 1
+    swaps = [k for k in gsp.body_nodes() if isinstance(k, ast.Call) and last_name(k) in ("get_repr_proc", "get_strictest_eqv_proc", "find")]
+    ok = not swaps
+    res.ob(ok)
+    res.sample(f"get_simple_proc analyses the called procedure itself: {ok}")
+    if not ok:
+        res.add(
+            Finding("PARCHECK", "src/exo/rewrite/new_eff.py", gsp.lineno, "get_simple_proc", "callee-representative",
+                    "the effects of a call are computed from the representative of the callee's equivalence class, not from the callee: after "
+                    "f2 = stage_mem(rename(f), ...) (f2 copies the whole window in and out) and call_eqv(caller, 'f(_)', f2), `for i in par(..): f2(x[i:i+4])` "
+                    "is judged on f's footprint and compiled with `#pragma omp parallel for` although neighbouring iterations overlap")
+        )
     # (d) storage class of allocations inside a parallel body.  The race check treats an
     #     allocation in the loop body as private to the iteration; a memory whose alloc() text
     #     is a `static` declaration is ONE object shared by all threads.  Either no library
